@@ -53,7 +53,12 @@ def run(chk, prog):
             X = plan["inp"]
             ext = E.norm(m.alloc[X]["extent"]) if X in m.alloc else None
             A.require(ext is not None, "extent of buffer %s unknown" % X)
-            pre = [w for w in ev2[:pos] if w.kind == "write" and w.buf == X and
+            # a write counts only if it happens on every path to the execution: each branch condition it is
+            # under must also guard the execution (same condition node, same polarity)
+            def unconditional(w):
+                return all(any((g is ge or (isinstance(g, dict) and isinstance(ge, dict) and g.get("id") == ge.get("id"))) and p_ == pe
+                               for ge, pe in e.guards) for g, p_ in w.guards)
+            pre = [w for w in ev2[:pos] if w.kind == "write" and w.buf == X and unconditional(w) and
                    [L.node["id"] for L in w.loops if L.node is not None][:len(e.loops)] == [L.node["id"] for L in e.loops][:len(w.loops)]]
             full = E.interval_union_covers(pre, ext)
             site = A.loc(m.fns[op2], {"line": e.line})
